@@ -116,6 +116,43 @@ theorem serveZ_spec {g : PDeframer} (hg : DeframerOK g) (lenOf : List Byte → N
       rw [e1, e2]
     | _ => rfl
 
+/-- the response write-through does not disturb the read side, and the transport receives exactly one response per
+    request, in request order, each computed from that request's header and payload -/
+theorem serveW_eq (g : PDeframer) (lenOf : List Byte → Nat) (resp : List Byte → List Byte → List Byte) :
+    ∀ (fuel : Nat) (b : AB) (r : ARd) (ds : List Nat) (w : List (List Byte)),
+      serveW g lenOf resp fuel b r ds w =
+        (serveZ g lenOf fuel b r ds, w ++ (serveZ g lenOf fuel b r ds).1.map (fun hp => resp hp.1 hp.2)) := by
+  intro fuel
+  induction fuel with
+  | zero => intro b r ds w; simp [serveW, serveZ]
+  | succ fuel ih =>
+    intro b r ds w
+    simp only [serveW, serveZ]
+    rcases pollLoop (liftDf g) (r.rem.length + 1) b r with ⟨b', r', res⟩
+    cases res with
+    | frame h =>
+      simp only
+      rcases drainZ (zeros ds + min (lenOf h) (b'.q.length + r'.rem.length) + 1)
+        { remaining := lenOf h, c := { done := false, b := b', r := r' } } ds with ⟨p, t'⟩
+      simp only [PChain.writeAll, ih]
+      simp [List.append_assoc]
+    | _ => simp
+
+/-- **C07 including the responses**: for every connection stream, chunking, destination schedule (zero-length destinations
+    included), `lenOf`, response function, SIZE and contract-honouring deframer, the requests obtained are the stream's
+    consecutive segments and the transport's write log grows by exactly `resp header payload` of each of them, in order -/
+theorem serveW_spec {g : PDeframer} (hg : DeframerOK g) (lenOf : List Byte → Nat) (resp : List Byte → List Byte → List Byte)
+    (fuel : Nat) (b : AB) (r : ARd) (ds : List Nat) (w : List (List Byte)) (hb : b.Inv) (hr : r.acts.all C02.isChunk = true) :
+    serveW g lenOf resp fuel b r ds w =
+      (parseConn b.size g lenOf fuel (b.q ++ r.rem),
+       w ++ (parseConn b.size g lenOf fuel (b.q ++ r.rem)).1.map (fun hp => resp hp.1 hp.2)) := by
+  rw [serveW_eq, serveZ_spec hg lenOf fuel b r ds hb hr]
+
+/-- non-vacuity of `serveW_spec`: two pipelined length-prefixed requests arriving in 3-byte chunks into a 4-byte buffer, drained
+    with a zero-length destination first; two responses, in order -/
+example : (serveW dfLenPrefix (fun h => h.length) (fun h p => h ++ p) 3 ⟨4, 0, []⟩
+    ⟨[1, 0x68, 0x70, 1, 0x69, 0x71], [.chunk 2, .chunk 0], []⟩ [0, 2] []).2 = [[0x68, 0x70], [0x69, 0x71]] := by decide
+
 /-- non-vacuity: a schedule that starts with two zero-length destinations -/
 example : (drainZ 6 { remaining := 2, c := { done := false, b := ⟨4, 0, [0x61]⟩, r := ⟨[0x62, 0x63], [], []⟩ } } [0, 0, 5]).1 = [0x61, 0x62] := by
   decide
